@@ -120,4 +120,5 @@ def sweep(db):
                     sig = signature(target, drop_self)
                 name = target.qualname
             v = bind(sig, call)
-            yield {"caller": f.qualname, "callee": name, "line": call.lineno, "relpath": mod.relpath, "verdict": v or "ok", "src": ast.unparse(call)[:160]}
+            yield {"caller": f.qualname, "callee": name, "line": call.lineno, "relpath": mod.relpath, "verdict": v or "ok", "src": ast.unparse(call)[:160],
+                   "node": call, "caller_fi": f, "sig": sig}
